@@ -74,6 +74,7 @@ def init : State :=
 inductive Panic where
   | sendClosed      -- "send on closed channel"
   | closeClosed     -- "close of closed channel"
+  | closeNil        -- "close of nil channel"
   | nilElem         -- TypeError: `chan.$elem.zero()` on `$chanNil` (elem = null)
 deriving DecidableEq, Repr
 
@@ -159,7 +160,8 @@ def runHead (s : State) (g : Nat) (rest : List Nat) : State × Obs :=
 
 /-- the loop of `$runScheduled` finds `$scheduled` empty: `clearTimeout(nextRun)` goroutines.js:190-193 -/
 def endLoop (s : State) : State :=
-  { s with inLoop := false, timers := s.timers.filter fun t => t.1 != s.loopTimer }
+  -- timer ids are unique; the id is that of the `setTimeout($runScheduled)` armed by this invocation
+  { s with inLoop := false, timers := s.timers.filter fun t => !(t.1 == s.loopTimer && t.2 == TimerKind.runSched) }
 
 /-- `$runScheduled()` goroutines.js:170-180 (entry + first iteration) -/
 def enterLoop (s : State) : State × Obs :=
@@ -189,28 +191,27 @@ def block (s : State) (g : Nat) (b : Blocked) : State :=
 
 /-! ### queue entries being called -/
 
+/-- common tail of every queue entry: record the result in the `$blk` object, for `$select` entries
+    `removeFromQueues()` (goroutines.js:365, 377; plain entries registered nothing else: `cases = []`), then
+    `$schedule(thisGoroutine)` -/
+def wakeG (s : State) (g : Nat) (w : Wake) (cases : List Case) : State :=
+  let x := getG s g
+  let s1 := setG s g { x with wake := w }
+  schedule { s1 with chans := removeFromQueues g cases 0 s1.chans } g
+
 /-- a receive entry is called with `[v, ok]`: goroutines.js:275-278 (plain) / 363-367 (select) -/
 def fireRecv (s : State) (e : Entry) (v : Nat) (ok : Bool) : State :=
-  let x := getG s e.gid
   match e.sel with
-  | none => schedule (setG s e.gid { x with wake := .recv v ok }) e.gid
-  | some i =>
-    let s1 := setG s e.gid { x with wake := .sel i (some (v, ok)) }
-    let s2 := { s1 with chans := removeFromQueues e.gid (selectCases s e.gid) 0 s1.chans }
-    schedule s2 e.gid
+  | none => wakeG s e.gid (.recv v ok) []
+  | some i => wakeG s e.gid (.sel i (some (v, ok))) (selectCases s e.gid)
 
-/-- a send entry of channel `c` is called: goroutines.js:246-250 (plain, argument `closed`) / 372-380 (select:
-    THROWS when the channel is closed). `none` = the entry threw "send on closed channel". -/
-def fireSend (s : State) (c : Nat) (e : Entry) (closed : Bool) : Option State :=
-  let x := getG s e.gid
+/-- a send entry is called with `closed`: goroutines.js:246-250 (plain: `closedDuringSend = closed`) /
+    372-382 (select, repaired: when `closed` the pending `$blk` is replaced by one that throws
+    "send on closed channel" in the selecting goroutine — observationally the `closedDuringSend` of a plain send) -/
+def fireSend (s : State) (e : Entry) (closed : Bool) : State :=
   match e.sel with
-  | none => some (schedule (setG s e.gid { x with wake := .sent closed }) e.gid)
-  | some i =>
-    if (getC s c).closed then none
-    else
-      let s1 := setG s e.gid { x with wake := .sel i none }
-      let s2 := { s1 with chans := removeFromQueues e.gid (selectCases s e.gid) 0 s1.chans }
-      some (schedule s2 e.gid)
+  | none => wakeG s e.gid (.sent closed) []
+  | some i => wakeG s e.gid (if closed then .sent true else .sel i none) (selectCases s e.gid)
 
 /-! ### channel primitives, executed by goroutine `g` (`$curGoroutine`) -/
 
@@ -250,25 +251,19 @@ def doRecv (s : State) (g c : Nat) : Res :=
   let ch := getC s c
   match ch.sendQ with
   | e :: sq =>
-    match fireSend (setC s c { ch with sendQ := sq }) c e false with
-    | none => (setC s c { ch with sendQ := sq }, .panic .sendClosed)
-    | some s1 =>
-      let ch1 := getC s1 c
-      recvTail (setC s1 c { ch1 with buf := ch1.buf ++ [e.val], hCommit := ch1.hCommit ++ [e.val] }) g c
+    let s1 := fireSend (setC s c { ch with sendQ := sq }) e false
+    let ch1 := getC s1 c
+    recvTail (setC s1 c { ch1 with buf := ch1.buf ++ [e.val], hCommit := ch1.hCommit ++ [e.val] }) g c
   | [] => recvTail s g c
 
-/-- first loop of `$close` goroutines.js:288-294 over the senders that were queued (plain entries do not touch
-    the queues; a select entry throws, leaving the rest queued). Returns `(state, threw)`. -/
-def closeSenders : Nat → State → Nat → State × Bool
-  | 0, s, _ => (s, false)
+/-- first loop of `$close` goroutines.js:288-294 (re-reads the queue: a select entry removes its siblings) -/
+def closeSenders : Nat → State → Nat → State
+  | 0, s, _ => s
   | n + 1, s, c =>
     let ch := getC s c
     match ch.sendQ with
-    | [] => (s, false)
-    | e :: sq =>
-      match fireSend (setC s c { ch with sendQ := sq }) c e true with
-      | none => (setC s c { ch with sendQ := sq }, true)
-      | some s1 => closeSenders n s1 c
+    | [] => s
+    | e :: sq => closeSenders n (fireSend (setC s c { ch with sendQ := sq }) e true) c
 
 /-- second loop of `$close` goroutines.js:295-301 (re-reads the queue: a select entry removes its siblings) -/
 def closeRecvs : Nat → State → Nat → State
@@ -279,15 +274,15 @@ def closeRecvs : Nat → State → Nat → State
     | [] => s
     | e :: rq => closeRecvs n (fireRecv (setC s c { ch with recvQ := rq }) e 0 false) c
 
-/-- `$close(chan)` goroutines.js:283-302 -/
+/-- `$close(chan)` goroutines.js:283-305 (repaired: a nil channel panics and `$chanNil` is left alone) -/
 def doClose (s : State) (c : Nat) : Res :=
   let ch := getC s c
-  if ch.closed then (s, .panic .closeClosed)
+  if ch.isNil then (s, .panic .closeNil)
+  else if ch.closed then (s, .panic .closeClosed)
   else
     let s1 := setC s c { ch with closed := true }
-    match closeSenders ch.sendQ.length s1 c with
-    | (s2, true) => (s2, .panic .sendClosed)
-    | (s2, false) => (closeRecvs (getC s2 c).recvQ.length s2 c, .ok)
+    let s2 := closeSenders ch.sendQ.length s1 c
+    (closeRecvs (getC s2 c).recvQ.length s2 c, .ok)
 
 /-- readiness scan of `$select` goroutines.js:304-327: `(ready, selection, threw)` -/
 def scan (s : State) : List Case → Nat → List Nat × Option Nat × Bool
@@ -383,13 +378,13 @@ def step (s : State) (ev : Event) : State × Obs :=
       | .fire id =>
         match findTimer s.timers id with
         | none => (s, .invalid)
-        | some .runSched => enterLoop { s with timers := s.timers.filter fun t => t.1 != id }
+        | some .runSched => enterLoop { s with timers := s.timers.erase (id, TimerKind.runSched) }
         | some (.closeChan c) =>
           let ch := getC s c
           -- modelled only when at most one goroutine is woken (`$schedule` at top level runs the loop inline)
           if ch.sendQ.length + ch.recvQ.length > 1 then (s, .invalid)
           else
-            let s1 := { s with timers := s.timers.filter (fun t => t.1 != id), awake := s.awake - 1 }
+            let s1 := { s with timers := s.timers.erase (id, TimerKind.closeChan c), awake := s.awake - 1 }
             match doClose s1 c with
             | (s2, .ok) => if s2.scheduled.length > s1.scheduled.length then enterLoop s2 else (s2, .ok)
             | r => r
